@@ -351,7 +351,8 @@ type field struct {
 	// blocked: a permission-less duplicate of this field's column sits on a SHORTER path and is
 	// declared BEFORE the embedded struct holding this field (see dup)
 	blocked bool
-	dup     *dup // the duplicate field sharing this field's column, if any
+	dup     *dup      // the duplicate field sharing this field's column, if any
+	fkOf    *relation // the field is the foreign key of this belongs-to relation
 }
 
 // group is one embedded struct of the model type: embedded by tag (`embedded`, optionally with
@@ -394,6 +395,7 @@ type item struct {
 	f *field
 	d *dup
 	g *group
+	r *relation
 }
 
 // dup is a SECOND Go field (same Go name) mapped to the column of field main, on a path of a
@@ -504,7 +506,8 @@ type model struct {
 	top      []*item
 	groups   []*group
 	dups     []*dup
-	zeroGrid bool // composite key whose parts may legally be zero: some seeded rows have one zero key part
+	zeroGrid bool        // composite key whose parts may legally be zero: some seeded rows have one zero key part
+	rels     []*relation // association fields (top level) to the static types of assoc.go
 }
 
 type nameCol struct{ name, col string }
@@ -638,6 +641,10 @@ func genModel(r *core.Rand, table string) *model {
 		f.tag = strings.Join(tags, ";")
 		add(f)
 	}
+	// association fields: one model in three has 1..2 relations to the static types of assoc.go; a
+	// belongs-to relation brings its foreign-key field (fully writable, an ordinary data field for
+	// every other operation)
+	m.genRelations(r, add)
 	// auto-time fields (always fully writable: a tracked time field that also denies writing is
 	// a contradiction the statement does not resolve)
 	na := core.Pick(r, []int{0, 1, 1, 1, 2, 2, 3})
@@ -663,6 +670,12 @@ func genModel(r *core.Rand, table string) *model {
 		f.idx = i
 	}
 	m.layout(r, npk)
+	for _, rl := range m.rels {
+		at := r.Range(npk, len(m.top))
+		m.top = append(m.top, nil)
+		copy(m.top[at+1:], m.top[at:])
+		m.top[at] = &item{r: rl}
+	}
 	m.typ = reflect.StructOf(m.build(m.top, nil))
 	// rows: 3..6 distinct keys out of 1..9, every cell a unique sentinel
 	nr := r.Range(3, 6)
@@ -946,6 +959,18 @@ func (m *model) build(items []*item, path []int) []reflect.StructField {
 	for i, it := range items {
 		p := append(append([]int(nil), path...), i)
 		switch {
+		case it.r != nil:
+			it.r.index = i
+			sf = append(sf, reflect.StructField{Name: it.r.name, Type: it.r.goType(), Tag: gtag(it.r.tag)})
+		case it.f != nil && len(path) == 0 && i == 0:
+			// the table name is part of the first field's tag: every case has a type of its own (reflect
+			// caches identical struct types, gorm caches one schema - and one table name - per type)
+			it.f.path = p
+			tag := reflect.StructTag(`verif:"` + m.table + `"`)
+			if it.f.tag != "" {
+				tag = gtag(it.f.tag) + " " + tag
+			}
+			sf = append(sf, reflect.StructField{Name: it.f.name, Type: it.f.k.typ, Tag: tag})
 		case it.f != nil:
 			it.f.path = p
 			sf = append(sf, reflect.StructField{Name: it.f.name, Type: it.f.k.typ, Tag: gtag(it.f.tag)})
@@ -984,6 +1009,8 @@ func (m *model) declItems(items []*item, indent string) []string {
 	var out []string
 	for _, it := range items {
 		switch {
+		case it.r != nil:
+			out = append(out, indent+it.r.decl())
 		case it.f != nil:
 			out = append(out, indent+it.f.decl())
 		case it.d != nil:
@@ -1140,6 +1167,7 @@ func (m *model) litItems(items []*item, vals map[int]lval, dvals map[int]lval) s
 	var parts []string
 	for _, it := range items {
 		switch {
+		case it.r != nil:
 		case it.f != nil:
 			if l, ok := vals[it.f.idx]; ok && !isGoZero(it.f.k, l) {
 				parts = append(parts, it.f.name+": "+goLit(it.f.k, l))
